@@ -29,6 +29,8 @@ struct TaskInfo {
     time_limit_s: Option<u64>,
     /// the crash limit the client asked for
     crash: Option<CrashSpec>,
+    /// the resource request the client asked for
+    req: Option<ReqSpec>,
     /// submitted when one of its (transitive) dependencies had already failed / been canceled
     late_dependent: bool,
 }
@@ -198,7 +200,39 @@ impl Monitors {
                         .collect();
                     lost_cb.push((*w, running.clone(), *reason, expected));
                 }
-                Obs::ExecStart { exec: _, w, t, instance, .. } => {
+                Obs::ExecStart { exec: _, w, t, instance, rv, alloc, nodes, .. } => {
+                    // C04-A3 end to end: what the worker allocated for the execution is what the
+                    // CLIENT asked for in the variant the task was started in (not what some
+                    // message or the server's request map says)
+                    if let (Some(req), true) = (self.tasks.get(t).filter(|i| i.known_spec).and_then(|i| i.req.clone()), nodes.is_empty()) {
+                        if let Some(v) = req.variants.get(*rv as usize) {
+                            let names = &core.resource_names;
+                            for e in &v.entries {
+                                let rid = names.iter().position(|n| *n == e.resource);
+                                let got = rid.and_then(|rid| alloc.resources.iter().find(|r| r.0 as usize == rid)).map(|r| r.1);
+                                let want = if e.policy == Policy::All {
+                                    sim.workers.get(w).and_then(|h| h.spec.resources.iter().find(|r| r.name == e.resource).map(|r| r.kind.size()))
+                                } else {
+                                    Some(e.amount)
+                                };
+                                self.count("ledger.exec_allocations_compared_with_submitted_request", 1);
+                                if got != want {
+                                    viol(
+                                        out,
+                                        step,
+                                        "C04",
+                                        "A3-allocation-differs-from-submitted-request",
+                                        format!("task {t:?} was submitted asking {:?} of {} (variant {rv}), worker {w} started it with {got:?}", want, e.resource),
+                                    );
+                                }
+                            }
+                            if alloc.resources.len() != v.entries.len() {
+                                viol(out, step, "C04", "A3-allocation-differs-from-submitted-request", format!("task {t:?}: variant {rv} asks for {} resources, the allocation holds {}", v.entries.len(), alloc.resources.len()));
+                            }
+                        } else {
+                            viol(out, step, "C04", "A3-allocation-differs-from-submitted-request", format!("task {t:?} was started in variant {rv}, its request has {} variants", req.variants.len()));
+                        }
+                    }
                     self.count("exec.start", 1);
                     self.mix(100 + *w as u64);
                     self.on_exec_start(*w, *t, *instance, step, out);
@@ -1395,6 +1429,7 @@ impl Monitors {
                                     known_spec: true,
                                     time_limit_s: attrs.time_limit_s,
                                     crash: Some(attrs.crash),
+                                    req: Some(req.clone()),
                                     late_dependent: false,
                                 },
                             );
@@ -1410,6 +1445,7 @@ impl Monitors {
                                     known_spec: true,
                                     time_limit_s: t.attrs.time_limit_s,
                                     crash: Some(t.attrs.crash),
+                                    req: reqs.get(t.req).cloned(),
                                     late_dependent: false,
                                 },
                             );
